@@ -6,9 +6,10 @@ from gen import domgen as D
 from lib.core import existing_modules
 
 ID = "C12"
-LEVEL = "other"
-LEAN_MODULES = existing_modules(["Sonic.Props.C12"]) + ["Sonic.Props.C14", "Sonic.Spec.Json"]
-REQUIRED_THEOREMS = []
+LEVEL = "proof"
+LEAN_MODULES = ["Sonic.Props.C12", "Sonic.Props.C14"]
+REQUIRED_THEOREMS = ["Sonic.Props.C12." + n for n in ["C12_refine", "C12_refine_node", "C12_inv_all", "C12_all", "C12_all_prefixes",
+                                                         "C12_map_invisible", "C12_map_invisible_run", "C12_dup_keys_note"]]
 CONFIGS = [("avx2", "prod"), ("avx2", "san"), ("sse", "prod"), ("dyn", "prod")]
 CONFIGS_THOROUGH = CONFIGS + [("sse", "san"), ("dyn", "san")]
 ALLOCS = ["pool", "simple", "track"]
@@ -24,8 +25,10 @@ EXPLANATION = ("Three-way comparison after EVERY operation: the compiled DNode A
                "implementation and Lean model (capacity, map flag) is reported as correspondence drift.")
 ASSUMPTIONS = ["std::multimap behaves as an ordered multiset with stable insertion order among equal keys"]
 TRUSTED = ["the Python mirror of the simple container model (gen/domgen.py) as L1 oracle"]
-LEVEL_TEXT = ("Refinement theorems (model refines the simple container spec for every op sequence) as listed in the evidence, plus three-way "
-              "differential correspondence on random op sequences; level 'other' until C12_all is among the discharged theorems.")
+LEVEL_TEXT = ("Machine-checked refinement proof (Lean 4): for every finite op sequence satisfying the API preconditions the model (len/cap/map "
+              "bookkeeping of DNode) keeps its invariant and is abstractly equal to the simple container spec with identical outputs (C12_all), "
+              "and the lookup map is invisible for objects with distinct keys (C12_map_invisible); the model is tied to the compiled code by a "
+              "three-way differential (implementation = model = independent Python mirror) after every operation.")
 LEVEL_NOTE = "Trusted: Lean kernel; standard axioms; Python mirror; harness."
 TECHNIQUE = "Lean 4 refinement proof (model -> simple containers) + three-way differential correspondence on op sequences"
 
